@@ -179,13 +179,17 @@ func c06Mutations(r *rand.Rand, base *cfg.Config, maxK int, sampled int) []*cfg.
 		n := 2 + r.Intn(maxK-1)
 		var ms []mut
 		used := map[string]bool{}
-		for len(ms) < n && len(ms) < len(all) {
+		// one mutation per declaration: bounded by the number of distinct names (and by a fixed number of draws)
+		for tries := 0; len(ms) < n && len(used) < len(all)/3 && tries < 200; tries++ {
 			m := all[r.Intn(len(all))]
 			if used[m.name] {
 				continue
 			}
 			used[m.name] = true
 			ms = append(ms, m)
+		}
+		if len(ms) == 0 {
+			continue
 		}
 		out = append(out, apply(ms))
 	}
